@@ -158,6 +158,35 @@ impl<'a> RegExp<'a> {
     }
 }
 
+#[cfg(grex_verif)]
+impl<'a> RegExp<'a> {
+    pub(crate) fn verif_stages(
+        test_cases: &'a mut Vec<String>,
+        config: &'a RegExpConfig,
+    ) -> crate::verif::Stages {
+        if config.is_case_insensitive_matching {
+            Self::convert_for_case_insensitive_matching(test_cases);
+        }
+        Self::sort(test_cases);
+        let grapheme_clusters = Self::grapheme_clusters(test_cases, config);
+        let clusters = grapheme_clusters
+            .iter()
+            .map(|c| c.graphemes().iter().map(crate::verif::GSnap::of).collect())
+            .collect();
+        let trie = Dfa::from(&grapheme_clusters, false, config).verif_snapshot();
+        let dfa = Dfa::from(&grapheme_clusters, true, config);
+        let minimized = dfa.verif_snapshot();
+        let expression = Expression::from(dfa, config).to_string();
+        crate::verif::Stages {
+            test_cases: test_cases.clone(),
+            clusters,
+            trie,
+            minimized,
+            expression,
+        }
+    }
+}
+
 impl Display for RegExp<'_> {
     fn fmt(&self, f: &mut Formatter<'_>) -> Result {
         let flag =
